@@ -84,7 +84,28 @@ def _run_once(chk):
                               {"argv": argv, "stdin_hex": data.hex(), "exit": st, "stdout_hex": out.hex(), "expected_hex": data[lo - 1:hi].hex()})
 
 
+def past_i32_bytes(chk):
+    """thorough tier only: byte mode resolves its bounds against the length of the WHOLE input — inputs of 2^31 and 2^32 + 3 bytes through the real release
+    binary (D29: `parts_length as i32`); the expected output is known in advance (the input is all zero bytes, the request selects 2 or 3 of them)"""
+    import subprocess
+    from common import build_tuc, ENV
+    tuc = build_tuc(release=True)
+    for n, bounds, want in ((2147483648, "1:3", 3), (2147483648, "-2:", 2), (2147483649, "2147483647:", 3), (4294967299, "-2:", 2), (4294967299, "1,-1", 2)):
+        cmd = f"head -c {n} /dev/zero | {tuc} -b {bounds} | wc -c; echo status=${{PIPESTATUS[1]}}"
+        p = subprocess.run(["bash", "-c", cmd], stdout=subprocess.PIPE, stderr=subprocess.DEVNULL, text=True, env=ENV, timeout=3600)
+        out = p.stdout.split()
+        chk.evaluations += 1
+        chk.count("bytes-past-i32")
+        chk.nontrivial_add(("bytes-past-i32", n, bounds))
+        got = int(out[0]) if out and out[0].isdigit() else -1
+        if got != want or "status=0" not in p.stdout:
+            chk.report_oracle("byte mode on an input of 2 GiB or more does not print exactly the selected bytes",
+                              {"shell": cmd, "printed_bytes": got, "expected_bytes": want, "raw": p.stdout[-200:]})
+
+
 def run(chk):
+    if chk.tier == "thorough":
+        past_i32_bytes(chk)
     # thorough = several independent rounds of the same generators (the PRNG keeps advancing), so that memory stays bounded
     for _round in range(1 if chk.tier == "quick" else 6):
         _run_once(chk)
